@@ -7,7 +7,7 @@
    [read_row fixed es row] the trace read path (OutputQuery) on a stored row.
    Accepted spans have 16-byte trace ids and 8-byte span ids (onSpan rejects every other width): part of [row_of]. *)
 From Coq Require Import List ZArith NArith Bool String Permutation.
-From Qryn Require Import model.Spans proofs.SpansProofs.
+From Qryn Require Import model.Spans model.SpansChunk proofs.SpansProofs proofs.SpansChunkProofs.
 Import ListNotations.
 Open Scope Z_scope.
 
@@ -68,3 +68,56 @@ Theorem segmentation_irrelevant : forall c d,
   model_mismatch (with_delivery c d) = model_mismatch c /\ spec_violation (with_delivery c d) = spec_violation c.
 Proof. exact segmentation_irrelevant_l. Qed.
 Print Assumptions segmentation_irrelevant.
+
+(* ---- the mid-request flush: onSpan's Size bookkeeping sends the rows gathered so far as one response whenever the accumulated
+   size exceeds a threshold (1 MiB in the code), and the rest at the end.  [decode_chunked thr psz fixed inp] = the parser's
+   responses and whether the request ended with an error; [psz] = the byte length of a stored payload.  For EVERY threshold and
+   EVERY size function: an accepted request's responses are groups of whole spans (a span's trace row and all its tag rows travel
+   in the same response) and the groups, concatenated in order, are in one-to-one correspondence with the pushed spans, each
+   with its trace row (one_row_per_span) and its tag rows (tag_rows_of_span). *)
+Theorem chunked_rows_of_spans : forall thr psz inp rows ps,
+  decode fixed inp = Some rows -> pushed_of inp = Some ps ->
+  exists groups,
+    decode_chunked thr psz fixed inp = (map chunk_of_group groups, false) /\
+    Forall2 (fun p sr => row_of p (fst sr) /\ tags_of p (snd sr)) ps (List.concat groups).
+Proof. exact chunked_rows_of_spans_l. Qed.
+Print Assumptions chunked_rows_of_spans.
+
+(* The rows of all responses together are the unchunked decoder's rows, whatever the threshold and the sizes. *)
+Theorem chunking_irrelevant : forall thr psz thr' psz' inp rows,
+  decode fixed inp = Some rows ->
+  let cs := fst (decode_chunked thr psz fixed inp) in
+  let cs' := fst (decode_chunked thr' psz' fixed inp) in
+  List.concat (map k_rows cs) = map fst rows /\ List.concat (map k_tags cs) = List.concat (map snd rows) /\
+  List.concat (map k_rows cs) = List.concat (map k_rows cs') /\ List.concat (map k_tags cs) = List.concat (map k_tags cs').
+Proof. exact chunking_irrelevant_l. Qed.
+Print Assumptions chunking_irrelevant.
+
+(* A flush happens exactly when needed: every response but the last is above the threshold and was not above it before its
+   last span; the last response is at most the threshold. *)
+Theorem flush_exactly_when_needed : forall thr psz inp rows,
+  0 <= thr -> decode fixed inp = Some rows ->
+  exists groups,
+    decode_chunked thr psz fixed inp = (map chunk_of_group groups, false) /\ List.concat groups = rows /\ groups <> [] /\
+    Forall (fun gr => gr <> [] /\ gsize psz gr > thr /\ gsize psz (removelast gr) <= thr) (removelast groups) /\
+    gsize psz (last groups []) <= thr.
+Proof. exact flush_exactly_when_needed_l. Qed.
+Print Assumptions flush_exactly_when_needed.
+
+(* A request whose accumulated size does not exceed the threshold is answered in one response holding all its rows. *)
+Theorem small_request_one_response : forall thr psz inp rows,
+  (forall p, 0 <= psz p) -> decode fixed inp = Some rows -> gsize psz rows <= thr ->
+  decode_chunked thr psz fixed inp = ([chunk_of_group rows], false).
+Proof. exact small_request_one_response_l. Qed.
+Print Assumptions small_request_one_response.
+
+(* A request that fails: an error response, and the responses sent before it (they are already on their way to the database)
+   hold whole spans of a prefix of the spans decoded before the failing one; each of them was above the threshold. *)
+Theorem error_after_flush : forall thr psz inp,
+  decode fixed inp = None ->
+  exists groups rest,
+    decode_chunked thr psz fixed inp = (map chunk_of_group groups, true) /\
+    fst (decode_stream fixed inp) = (List.concat groups ++ rest)%list /\
+    Forall (fun gr => gsize psz gr > thr) groups.
+Proof. exact error_after_flush_l. Qed.
+Print Assumptions error_after_flush.
